@@ -526,3 +526,23 @@ pub fn gen_c16(tier: &str, rng: &mut Rng, w: &mut dyn Write) {
         writeln!(w, "scopes_e2e {}", n).unwrap();
     }
 }
+
+/// C11: inputs with 2-3 players and ranges of 1..60 combos (kept small enough for 24 + 3 re-enumerations)
+pub fn gen_c11(tier: &str, rng: &mut Rng, w: &mut dyn Write) {
+    use crate::gen2::{random_flop, random_range};
+    for i in 0..(if tier == "thorough" { 400 } else { 24 }) {
+        let flop = random_flop(rng);
+        let np = 2 + rng.below(2) as usize;
+        let all24 = tier == "thorough" || i % 6 == 0;
+        let mut line = format!("c11 {} 1 digest 0 {} {} {} - - 0 1 48 49 0 {}", 2 * (rng.next() % 1_000_000) + (if all24 { 0 } else { 1 }), flop[0], flop[1], flop[2], np);
+        for _ in 0..np {
+            let sz = if np == 2 { 1 + rng.below(if all24 { 6 } else { 25 }) as usize } else { 1 + rng.below(4) as usize };
+            let r = random_range(rng, sz, i % 2 == 0);
+            line.push_str(&format!(" {}", r.len()));
+            for (c, wb) in r {
+                line.push_str(&format!(" {} {}", c, wb));
+            }
+        }
+        writeln!(w, "{}", line).unwrap();
+    }
+}
